@@ -94,6 +94,25 @@ type payreqBody struct {
 	D string `json:"d"`
 	E int64  `json:"e"` // absolute expiry, virtual ms
 	L string `json:"l,omitempty"`
+	R []RouteHint `json:"r,omitempty"` // routing hints (BOLT11 'r' fields), one hop each
+}
+
+// RouteHint: a private-channel hint an invoice may carry.
+type RouteHint struct {
+	Pubkey string `json:"p"`
+	Scid   string `json:"s"`
+	Delta  uint32 `json:"d"` // cltv_expiry_delta
+}
+
+// WithHints re-encodes a payment request with routing hints added.
+func WithHints(payreq string, hints ...RouteHint) string {
+	b, err := DecodePayreqBody(payreq)
+	if err != nil {
+		return payreq
+	}
+	b.R = append(b.R, hints...)
+	raw, _ := json.Marshal(b)
+	return payreqPrefix + hex.EncodeToString(raw)
 }
 
 const payreqPrefix = "lnsim1"
